@@ -193,9 +193,17 @@ func derived(v string) []string {
 	add(v + v)
 	add(strings.ToUpper(v))
 	add(strings.ToLower(v))
-	for _, s := range []string{".", ":", "-", "/", ".1", ":x", " "} {
+	for _, s := range []string{".1", ":x"} {
 		add(v + s)
 		add(s + v)
+	}
+	// every punctuation character once and doubled, at either end
+	for _, c := range ".:-/@ +_;,=#?()[]{}%&*!~|\\'<>$^" {
+		s := string(c)
+		add(v + s)
+		add(v + s + s)
+		add(s + v)
+		add(s + s + v)
 	}
 	return out
 }
